@@ -570,7 +570,12 @@ def describe(case):
 def run_cases(st, binary, pool, pex, cases, tag, batch=1500):
     chk = st.chk
     kept = []
+    seen = set()
     for c in cases:
+        k = (c[1], c[2], c[3] if c[0] == "n" else (c[3][0] if c[3] else None))
+        if k in seen:
+            continue  # identical conversion generated twice (overlapping structured sets)
+        seen.add(k)
         a = avoid_class(c)
         if a:
             st.avoided[a] = st.avoided.get(a, 0) + 1
@@ -733,7 +738,7 @@ def run(tier, seed):
         evaluations=st.evals,
         distinct_nontrivial=st.nontrivial,
         rule="evaluation = one conversion result line compared with the exact model (and with V8); non-trivial = finite non-zero double in, or finite "
-             "non-zero double out of a text; counted once per generated case (structured sets are duplicate-free, random collisions negligible)",
+             "non-zero double out of a text; identical (operation, input, argument) triples are generated once per wave",
         samples=st.samples,
         extra={
             "op_histogram": {OP_DOC[o]: n for o, n in sorted(st.ops.items())},
